@@ -242,6 +242,38 @@ def _same_cells(a, b):
     return True
 
 
+REPLAY_ORDER = '''
+import itertools
+from stepup.core.hash import FileHash, StepHash
+cfg, which = {cfg!r}, {which!r}
+def digest(files_order, env_order, ovr_order):
+    inp = {{p: FileHash(*cfg["files"][p][:2], 0.0, cfg["files"][p][2], 0) for p in files_order}}
+    if which == "out":
+        return StepHash(b"x" * 32).with_out_hashes(inp).out_digest
+    env = {{k: cfg["env"][k] for k in env_order}}
+    ovr = {{k: cfg["ovr"][k] for k in ovr_order}}
+    return StepHash.from_inp(cfg["label"], inp, env, explained=False, shell=cfg["shell"], env_overrides=ovr).inp_digest
+seen = set()
+for fo in itertools.permutations(cfg["files"]):
+    for eo in itertools.permutations(cfg["env"]):
+        for oo in itertools.permutations(cfg["ovr"]):
+            seen.add(digest(fo, eo, oo))
+print("configuration", cfg, "distinct digests over all dict orders:", len(seen))
+sys.exit(1 if len(seen) > 1 else 0)
+'''
+
+
+def _order_violation(res, m, cfg, order, which):
+    conf = model_config(m, cfg)
+    rp = write_replay("C13", "O13.2", f"order {which} {conf}", REPLAY_ORDER.format(cfg=conf, which=which))
+    ok, out = run_replay(rp)
+    if ok:
+        if not any(v.key == f"O13.2:order:{which}" for v in res.violations):
+            res.violations.append(Violation(f"O13.2:order:{which}", f"the {which} digest depends on the order in which ingredients are supplied", conf, rp))
+    else:
+        res.inconclusive.append(f"order-dependence model does not reproduce: {out[-300:]}")
+
+
 def o13_order(tier):
     """Order independence: the same ingredients supplied in any dict order give the same stream."""
     from stepup.core import hash as hm
@@ -274,7 +306,7 @@ def o13_order(tier):
                 r = str(s.check())
                 res.q(f"stream independent of dict order {order}", r, time.time() - t0)
                 if r == "sat":
-                    res.inconclusive.append("order dependence model found (replay not implemented): " + str(s.model())[:300])
+                    _order_violation(res, s.model(), c, order, "inp")
         s = z3.Solver()
         for x in c.cons + base[0][0]:
             s.add(x)
@@ -293,7 +325,10 @@ def o13_order(tier):
             res.q("output stream independent of dict order (excluded orders / identical word sequence)", "unsat", time.time() - t0)
             continue
         s.add(z3.Not(hs.bz(hs.stream_eq(s1, s2, s.add))))
-        res.q("output stream independent of dict order", str(s.check()), time.time() - t0)
+        r = str(s.check())
+        res.q("output stream independent of dict order", r, time.time() - t0)
+        if r == "sat":
+            _order_violation(res, s.model(), co, (1, 0, 0), "out")
     res.nontrivial = len(res.queries)
     return res
 
